@@ -1,24 +1,103 @@
-use saito_sim::rng::Rng;
-use saito_sim::util::{guarded, reset_determinism};
-use saito_sim::world::*;
+use std::time::{Duration, Instant};
+
+use saito_sim::framework::*;
+use saito_sim::props;
+
+fn arg_val(args: &[String], name: &str) -> Option<String> {
+    args.iter().position(|a| a == name).and_then(|i| args.get(i + 1).cloned())
+}
+
+fn usage() -> ! {
+    eprintln!("usage: simctl check <id> [--tier quick|thorough] [--seed N] [--workers N] [--max-runs N] [--wall-s N]\n       simctl replay <file>\n       simctl selftest <id|all> [--runs N]\n       simctl run1 <id> --index N [--tier T] [--seed N]\n       simctl list");
+    std::process::exit(2)
+}
 
 fn main() {
-    let t = std::time::Instant::now();
-    reset_determinism(1);
-    let r = guarded(|| {
-        let mut w = World::new(1, Params::default());
-        let mut rng = Rng::new(7);
-        let mut cur = 0;
-        for i in 0..20 {
-            cur = w.honest_child(cur, &mut rng, 2, i % 2 == 0, 2500, "h").unwrap();
+    let args: Vec<String> = std::env::args().collect();
+    if args.len() < 2 {
+        usage();
+    }
+    let verif_root = std::env::var("VERIF_ROOT").unwrap_or_else(|_| "/verif".to_string());
+    let seed: u64 = arg_val(&args, "--seed")
+        .and_then(|s| s.parse().ok())
+        .or_else(|| std::env::var("VERIF_SEED").ok().and_then(|s| s.parse().ok()))
+        .unwrap_or(DEFAULT_SEED);
+    let tier = Tier::parse(
+        &arg_val(&args, "--tier")
+            .or_else(|| std::env::var("VERIF_TIER").ok())
+            .unwrap_or_else(|| "quick".into()),
+    );
+    let workers: usize = arg_val(&args, "--workers")
+        .and_then(|s| s.parse().ok())
+        .unwrap_or_else(|| std::thread::available_parallelism().map(|n| n.get()).unwrap_or(8).min(16));
+    match args[1].as_str() {
+        "list" => {
+            for s in props::all() {
+                println!("{}", s.id());
+            }
         }
-        let mut n = Node::new(&w.cfg, &w.keys[1]);
-        for i in 0..w.recs.len() {
-            let r = n.add_block_bytes(&w.recs[i].bytes).unwrap();
-            println!("{} {:?}", w.recs[i].id, outcome_of(&r));
+        "check" => {
+            let id = args.get(2).unwrap_or_else(|| usage());
+            let sc = props::by_id(id).unwrap_or_else(|| {
+                eprintln!("unknown property {}", id);
+                std::process::exit(2)
+            });
+            let opt = CheckOptions {
+                verif_root,
+                workers,
+                seed,
+                tier,
+                max_runs_override: arg_val(&args, "--max-runs").and_then(|s| s.parse().ok()),
+                wall_override: arg_val(&args, "--wall-s").and_then(|s| s.parse().ok()),
+            };
+            std::process::exit(check_main(sc, &opt));
         }
-        println!("tip {:?} utxo {} ref {}", n.tip().0, n.utxo_keys().len(), w.ledger_at(cur).utxo.len());
-        assert_eq!(n.utxo_keys(), w.ledger_at(cur).keys());
-    });
-    println!("{:?} in {:?}", r.err(), t.elapsed());
+        "worker" => {
+            let id = args.get(2).unwrap_or_else(|| usage());
+            let sc = props::by_id(id).unwrap();
+            let from: u64 = arg_val(&args, "--from").and_then(|s| s.parse().ok()).unwrap_or(0);
+            let stride: u64 = arg_val(&args, "--stride").and_then(|s| s.parse().ok()).unwrap_or(1);
+            let max_index: u64 = arg_val(&args, "--max-index").and_then(|s| s.parse().ok()).unwrap_or(1);
+            let wall: u64 = arg_val(&args, "--wall-s").and_then(|s| s.parse().ok()).unwrap_or(30);
+            let trace = args.iter().any(|a| a == "--trace-hashes");
+            worker_main(sc, tier, seed, from, stride, max_index, Instant::now() + Duration::from_secs(wall), trace);
+        }
+        "replay" => {
+            let path = args.get(2).unwrap_or_else(|| usage());
+            let s = std::fs::read_to_string(path).unwrap_or_else(|e| {
+                eprintln!("cannot read {}: {}", path, e);
+                std::process::exit(2)
+            });
+            let rf: ReplayFile = serde_json::from_str(&s).unwrap_or_else(|e| {
+                eprintln!("bad replay file: {}", e);
+                std::process::exit(2)
+            });
+            let sc = props::by_id(&rf.property).unwrap();
+            std::process::exit(replay_main(sc, &rf, path));
+        }
+        "run1" => {
+            let id = args.get(2).unwrap_or_else(|| usage());
+            let sc = props::by_id(id).unwrap();
+            let index: u64 = arg_val(&args, "--index").and_then(|s| s.parse().ok()).unwrap_or(0);
+            let plan = sc.generate(seed, index, tier);
+            println!("{}", serde_json::to_string(&plan).unwrap());
+            let r = run_plan(sc, &plan);
+            println!("{}", serde_json::to_string_pretty(&r).unwrap());
+        }
+        "selftest" => {
+            let id = args.get(2).unwrap_or_else(|| usage());
+            let runs: u64 = arg_val(&args, "--runs").and_then(|s| s.parse().ok()).unwrap_or(2000);
+            let mut code = 0;
+            for sc in props::all() {
+                if id == "all" || id == sc.id() {
+                    let c = selftest_main(sc, seed, runs, workers);
+                    if c != 0 {
+                        code = c;
+                    }
+                }
+            }
+            std::process::exit(code);
+        }
+        _ => usage(),
+    }
 }
